@@ -21,6 +21,10 @@ def programs(tier, rnd: random.Random):
               "{ RdV = RsV ? ({ ReV = 1; RtV; }) : 2; }", "{ if (RsV) { RdV = RtV; } else { RdV = RtV + 1; } ReV = RtV; }", "{ RxV = RxV + RxV; RxV = RxV; }",
               "{ RdV = clz32(RsV) + clz32(RsV); }", "{ RdV = HEX_REG_ALIAS_USR + HEX_REG_ALIAS_USR; }", "{ P0 = P0_NEW & P0_NEW; }", "{ RdV = mem_load_u8(EA) + mem_load_u8(EA); }",
               "{ RdV = mem_load_u8(-1); }", "{ mem_store_u8(EA, -1); }", "{ JUMP(-4); }", "{ RdV = extract32(RsV, 0, 8) + extract32(RsV, 8, 8); }",
+              # constructs that raise an attribute but never reach an effect: discarded values, dead arms below an operator
+              "{ mem_load_u32(RtV); RdV = RsV; }", "{ RdV = ((2 > 1) ? RsV : ((int32_t) mem_load_u8(RtV + 1))); }", "{ RdV = (1 ? RsV : ((int32_t) mem_load_s32(RtV)) + 1); }",
+              "{ RdV = (0 ? mem_load_u16(RsV) + 1 : RtV); }", "{ RdV = (1 ? RsV : PtN + 1); }", "{ RdV = (1 ? RsV : ({ P0 = 1; RtV; })); }", "{ RdV = (0 ? ({ P1 = RsV; 2; }) + 1 : RtV); }",
+              "{ RsV + mem_load_u8(RtV); RdV = 1; }", "{ RdV = RsV; (int32_t) mem_load_s16(RtV); }",
               "{ for (i = 0; i < 2; i++) { RxV += RsV; } RdV = RsV; }", "{ RdV = RsV; RdV = RsV; RdV = RsV; }", "{ ; ; {} }", "{ RdV = 4 / 2; }", "{ RdV = (4 / 2) ? RsV : RtV; }"]
     return progs
 
